@@ -57,7 +57,9 @@ def event_expr(e):
 def op_expr(o):
     n, a = o[0], o[1:]
     if n in ('ap', 'ax', 'as'):
-        return 'Add %s %s %s 0' % (KINDS[n[1]], z(a[0]), z(a[1]))
+        return 'Add %s %s %s %s' % (KINDS[n[1]], z(a[0]), z(a[1]), z(a[2]) if len(a) > 2 else '0')
+    if n in ('cp', 'cx'):
+        return 'CloseHandle %s %s' % (KINDS[n[1]], z(a[0]))
     if n == 'ac':
         return 'Add KCtr %s %s %s' % (z(a[0]), z(a[1]), z(a[2]))
     if n == 'ad':
@@ -209,13 +211,25 @@ class Sim:
         r = self.rng
         if k in 'pxs':
             ch, st = r.randrange(0, 10), r.choice([1, 7, 1001, -5, 2 ** 31 - 1, -2 ** 31])
-            self.emit('a' + k, ch, st)
+            if r.random() < 0.12:
+                # a long channel: the encoded command must fit the 512-byte command buffer (header 24 / 32 bytes) - exact fit,
+                # one less, one more, and a few others
+                top = 512 - (32 if k == 's' else 24)
+                ln = r.choice([top, top, top - 1, top + 1, top + 1, 41, 100, 300, top + 8, 600])
+                self.emit('a' + k, ch, st, ln)
+                if ln > top and self.active and not self.closed:
+                    return None     # IllegalArgument: nothing sent, no id drawn
+            else:
+                self.emit('a' + k, ch, st)
         elif k == 'c':
             ty = r.choice([0, 11, 1001, -3])
             kl = r.choice([0, 8, 16, 112, 112, 113, 200])
             ll = r.choice([0, 1, 10, 64, 380, 381]) if kl < 100 else r.choice([0, 10, 64])
+            if r.random() < 0.2:
+                kl = r.choice([0, 1, 4, 5, 109, 112])
+                ll = 512 - 28 - (kl + 3) // 4 * 4 + r.choice([0, 0, -1, 1, 1, 8])      # on the 512-byte boundary
             self.emit('ac', ty, kl, ll)
-            if kl > 112 or ll > 380:
+            if kl > 112 or ll > 380 or 28 + (kl + 3) // 4 * 4 + ll > 512:
                 if self.active and not self.closed:
                     return None
         else:
@@ -256,6 +270,13 @@ class Sim:
             if not self.closed and not reg.get('dead'):
                 self.next += 1
             del self.regs[i]        # (a publication / counter dropped while the ring is full stays registered with a dead handle)
+
+    def close_handle(self, i, k=None):
+        """the user calls the public close() of a publication / exclusive publication handle"""
+        k = k or (self.regs[i]['kind'] if i in self.regs else self.rng.choice('px' if self.xhook else 'p'))
+        if k not in 'px' or (k == 'x' and not self.xhook):
+            return
+        self.emit('c' + k, i)
 
     def peek(self, i, k=None):
         k = k or (self.regs[i]['kind'] if i in self.regs else self.rng.choice('pscx' if self.xhook else 'psc'))
@@ -441,7 +462,10 @@ def gen_history(rng, tier, flavour):
             elif live:
                 s.drop(rng.choice(live))
         elif r < 0.68:
-            if live:
+            if live and rng.random() < 0.3:
+                held = s.ids(kind='px', held=True)
+                s.close_handle(rng.choice(held) if held and rng.random() < 0.85 else rng.choice(live))
+            elif live:
                 s.peek(rng.choice(live))
         elif r < 0.76:
             d = rng.choice([1, 100, 499, 501, 1001, tdrv - 1, tdrv, tdrv + 1, tdrv // 2])
@@ -580,6 +604,15 @@ def scripted():
     h('heartbeat-slot-reused-after-lapped-timeout', 'hb 1000000; hc 1; tk 501; w; wl; hc 3; tk 501; w; ap 1 1; tk 501; w')
     h('heartbeat-slot-other-client-never-bound', 'hb 1000000; hc 3; tk 501; w; tk 501; w; hc 1; tk 501; w; hc 3; tk 501; w')
     h('client-timeout-foreign', 'hb 1000000; ap 1 1; we ct 77; fp 1; we ct 0; fp 1; we ct 0; w')
+    # commands on the 512-byte boundary of the command buffer: exact fit is legal, one more is IllegalArgument and sends nothing
+    h('command-exact-fit', 'hb 1000000; ap 1 1 488; ap 1 1 489; ap 1 1 487; as 1 1 480; as 1 1 481; as 1 1 479; ax 1 1 488; ax 1 1 489; ap 2 2 41; ap 2 2 600;'
+      'ac 1 112 372; ac 1 112 373; ac 1 109 372; ac 1 109 373; ac 1 0 381; ac 1 0 380; ac 1 4 380; ac 1 5 380; fp 1; fs 3; we pr 1 1 1 5 3 4; fp 1; dp 1; ap 1 1')
+    h('command-exact-fit-ring-full-closed', 'hb 1000000; rf 1; ap 1 1 488; ap 1 1 489; rf 0; ap 1 1 488; cl; ap 1 1 489; ap 1 1 488')
+    # the user's own close() on a publication handle: the conductor is not involved, the drop still sends the one Remove
+    h('publication-close-then-drop', 'hb 1000000; ap 1 1; we pr 1 1 1 5 3 4; cp 1; fp 1; cp 1; pp 1; fp 1; cp 1; pp 1; dp 1; fp 1; cp 1; ap 2 2; we pr 3 3 2 5 3 4; fp 3; dp 3')
+    h('publication-close-then-client-close', 'hb 1000000; ap 1 1; ap 2 2; we pr 1 1 1 5 3 4; we pr 2 2 2 5 3 4; fp 1; fp 2; cp 1; cl; pp 1; pp 2; cp 2; dp 1; dp 2')
+    h('publication-close-then-chan-error', 'hb 1000000; ap 1 1; we pr 1 1 1 5 3 6; fp 1; cp 1; we er 6 4; pp 1; fp 1; dp 1')
+    h('publication-close-ring-full-drop', 'hb 1000000; ap 1 1; we pr 1 1 1 5 3 6; fp 1; cp 1; rf 1; dp 1; rf 0; fp 1; cp 1')
     # channel endpoint errors (ErrorResponse with error code 4; the id is a channel status indicator id, compared as i32)
     h('chan-error-sub-held-with-images', 'hb 1000000; as 1 1; we sr 1 6; fs 1; we ai 50 1 2 1; we ai 51 1 3 1; we er 6 4; ps 1; fs 1; we ai 52 1 2 1; we ui 50 1; ds 1; fs 1; cl')
     h('chan-error-sub-cached', 'hb 1000000; as 1 1; we sr 1 6; we ai 50 1 2 1; we er 6 4; fs 1; we ai 51 1 2 1; cl')
@@ -608,6 +641,7 @@ def scripted():
         h('xpub-close', 'hb 1000000; ax 4 9; ax 5 9; we xr 1 9 5 3 4; we xr 2 9 6 7 8; fx 1; cl; px 1; fx 1; fx 2; dx 1; dx 2; ax 1 1')
         h('xpub-client-timeout', 'hb 1000000; ax 4 9; we xr 1 9 5 3 4; fx 1; we ct 0; px 1; fx 1; dx 1; w')
         h('xpub-ring-full-drop', 'hb 1000000; ax 4 9; we xr 1 9 5 3 4; fx 1; rf 1; dx 1; fx 1; rf 0; fx 1; cl')
+        h('xpub-close-then-drop', 'hb 1000000; ax 1 1; we xr 1 1 5 3 4; cx 1; fx 1; cx 1; px 1; fx 1; dx 1; fx 1; cx 1; ax 2 2 488; we xr 3 2 5 3 4; fx 3; cx 3; cl; px 3; dx 3')
         h('xpub-same-while-held', 'hb 1000000; ax 4 9; ax 4 9; we xr 2 9 5 3 4; we xr 1 9 5 3 4; fx 2; fx 1; fx 2; fx 1; px 1; px 2; dx 2; fx 1; fx 2')
     return [conv(c) for c in H]
 
